@@ -600,6 +600,10 @@ def run_c08(ctx):
         b = dslgen.render(q)
         if b != a:
             pairs.append(("combined", a, textgen.relayout(b, rng, comments=0.1)))
+    # a length / checksum field that writes its type and shares its NAME with a MetaData entry of another width: the written type
+    # is the field's type in either attribute placement (on the pinned tree the suffix form took the entry's type: fix 2df72d0)
+    sh = os.path.join(os.path.dirname(os.path.dirname(os.path.abspath(__file__))), "corpus", "dsl")
+    pairs.append(("attr-placement/name-shadows-metadata", open(os.path.join(sh, "shadow_suffix.dsl")).read(), open(os.path.join(sh, "shadow_prefix.dsl")).read()))
     # one fixed string, every way of writing it: zchar[n] / char[n] with explicit NUL right padding / through a MetaData entry /
     # through a reference to such an entry / attribute on a MetaData-typed field; plain and repeated, both byte orders
     for le in ("true", "false"):
